@@ -25,8 +25,8 @@ SCHEMA_NAMES = [
     "Pet", "User", "UserGroup", "UserGroupItem", "Node", "NodeItem", "Children", "Order", "OrderItem", "Tag",
     "ErrorBody", "Item", "Widget", "Account", "Cat2Dog", "LineEntry", "Page", "Event", "Shape", "Circle", "Square",
 ]
-HOSTILE_SCHEMA_NAMES = ["pet_owner", "HTTPResponse", "foo-bar", "Foo.Bar", "Self", "date", "Enum", "Field"]
-RESERVED_SCHEMA_NAMES = ["List", "Any", "Model", "Optional", "Union", "Dict", "data", "type", "UUID"]  # shadow typing imports / reserved-name suffixing
+HOSTILE_SCHEMA_NAMES = ["pet_owner", "HTTPResponse", "foo-bar", "Foo.Bar", "date", "Enum", "Field"]
+RESERVED_SCHEMA_NAMES = ["List", "Any", "Model", "Optional", "Union", "Dict", "data", "type", "UUID", "Self"]  # shadow typing imports / reserved-name suffixing
 SUFFIXED_SCHEMA_NAMES = ["Id", "Type", "Email", "Json", "Copy"]
 EXCEPTION_LIKE_SCHEMA_NAMES = ["NotFoundError", "ConflictError", "BadRequestError", "UnprocessableEntityError", "InternalServerError", "HTTPError"]  # names of the core's exception classes / status aliases  # class name gets a reserved-name suffix (Id_), nothing is shadowed
 PROP_NAMES = ["id", "name", "value", "count", "tags", "createdAt", "created_at", "created_at_2", "updated", "userId", "user_id", "kind", "status",
